@@ -177,7 +177,13 @@ impl Profile for StoredHandles {
                 8 => {
                     // bytes left behind by an older program that stored a plain struct
                     let who = rng.pick(&contracts).addr.clone();
-                    ops.push(Op::Poke { target: c.addr.clone(), key: rng.pick(&["r0", "r1", "r2"]).to_string(), val: Doc::text(format!("{{\"addr\":\"{}\"}}", who)) });
+                    // also with spellings a legacy writer may have used: escapes, spacing
+                    let text = match rng.below(4) {
+                        0 => format!("{{ \"addr\" : \"{}\" }}", who),
+                        1 => format!("{{\"addr\":\"\\u0063{}\"}}", &who[1..]),
+                        _ => format!("{{\"addr\":\"{}\"}}", who),
+                    };
+                    ops.push(Op::Poke { target: c.addr.clone(), key: rng.pick(&["r0", "r1", "r2"]).to_string(), val: Doc::text(text) });
                 }
                 _ => ops.push(Op::Block { dh: rng.range(1, 500), dt: rng.range(1, 86_400) }),
             }
